@@ -17,8 +17,8 @@ from . import rules as R
 from .extract import Undecided
 
 VERIF = A.VERIF
-BUILD = os.path.join(VERIF, 'build')
-REPLAYS = os.path.join(VERIF, 'replays')
+BUILD = os.environ.get('VERIF_BUILD') or os.path.join(VERIF, 'build')
+REPLAYS = os.environ.get('VERIF_REPLAYS_DIR') or os.path.join(VERIF, 'replays')
 
 
 def load_props():
